@@ -122,6 +122,7 @@ var Types = []TypeDef{
 	{"PInt", "*int"}, {"PMyInt", "*MyInt"}, {"PLS1", "*LS1"}, {"PLS2", "*LS2"}, {"PXS", "*ext.XS"}, {"PPInt", "**int"},
 	{"SInt", "[]int"}, {"SMyInt", "[]MyInt"}, {"SString", "[]string"}, {"SAny", "[]interface{}"},
 	{"SLS1", "[]LS1"}, {"SLS2", "[]LS2"}, {"SPLS1", "[]*LS1"}, {"Tags", "Tags"},
+	{"SXInt", "[]ext.XInt"}, {"SPXS", "[]*ext.XS"},
 	{"Any", "interface{}"}, {"Err", "error"}, {"Str", "Str"}, {"Map", "map[string]int"}, {"Func", "func() int"}, {"Arr", "[2]int"},
 }
 
